@@ -299,6 +299,8 @@ def gen(seed, idx, tier, ctx):
                   'obuf': rng.choice(BUF_SIZES),
                   'rplan': draw_read_plan(rng, data, inside, False),
                   'wplan': draw_write_plan(rng, False, dst == 'file')}
+            if dst == 'file' and rng.random() < 0.3:
+                it['stale'] = True
             if src == 'file' and dst == 'file' and rng.random() < 0.25:
                 # format a file in place: -o names the input file itself,
                 # possibly under another spelling of its path
@@ -489,6 +491,10 @@ def run_cli_item(item, text, ref, stat, viols, ii, want_bytes=False):
             fs.write_err[out_path] = item['open_w_err']
         fs.wplan[out_path] = wplan
         fs.buffer_size[out_path] = item.get('obuf') or 8192
+        if out_path != IN_PATH and item.get('stale'):
+            # the output file already exists with other, longer content
+            fs.files[out_path] = b'-- stale output \xff\xfe\n' * 400
+            stat('cli_output_file_preexisting')
         stdout, so_sink = iofake.make_stdout({}, chan, item.get(
             'stdout_enc') or 'utf-8')
         out_enc = enc
